@@ -99,9 +99,9 @@ class C06(fw.Property):
                   "Block2Cache.extract_or_insert, Message._append_request_block/_extract_block and Resource._render_to_pipe: for every event history the model "
                   "refines time-free reference maps (handler bodies = in-order chains of one key; Block2 answers = exact slices of the stored reference rendering); "
                   "total decision table of the Block1 answers (2.31 / 4.08 / 4.00, frame); no 5.xx over all histories; TimeoutDict lifetime in [T, 2T) over all "
-                  "access histories. The model is tied to the code by running both on the same request/idle-time histories through the real Context+Site+Resource stack.")
+                  "access histories and, lifted, for spool and cache entries over all server histories (continuation < T after the last use never 4.08 for expiry, >= 2T always). The model is tied to the code by running both on the same request/idle-time histories through the real Context+Site+Resource stack.")
     level_note = ("Hand-written model (no translated kernel); handlers are atomic (render does not yield), so overlapping renderings are outside the model. "
-                  "The lifetime bounds are proved for TimeoutDict histories; their use by spool/cache is covered by correspondence and oracle only. "
+                  "The lifetime bounds are proved for TimeoutDict op histories and lifted to every event history of the server model (ghost last-use times; a rejected continuation and a 4.00 later block count as uses, a complete answer evicts). "
                   "Finding C06:block2-stale-rendering is fixed in /repo (d768e89); the model has the eviction and the 'latest block-0 rendering' clause is a theorem. Length check applies to M=1 continuations only (as in the code).")
     rule = ("stream block_sequences: 1..4 planned transfers (Block1 uploads with optional Block2 of the response, Block2 downloads; szx 0-2 mostly, rarely 6/7/BERT) "
             "from 1..3 endpoints (max payload 1124/64/40/1152) on 3 resources (one PathCapable with sub-paths), each transfer perturbed with p=0.7 (skip, repeat, restart at 0, "
@@ -255,6 +255,9 @@ class C06(fw.Property):
                             return ("C06:size-mismatch-not-400", "%s: answered code %d" % (where, resp["code"]))
                         return_sig = no_handler("C06:handler-on-rejected-block")
                         if return_sig: return return_sig
+                        # a rejected continuation is a use of the assembly (the lookup refreshed its timeout) whenever the assembly
+                        # certainly existed: it was alive by the lower bound, or the answer is 4.00 (the length check runs after the lookup)
+                        if alive or exp == BAD_REQUEST: a["ok"] = t
                         continue
                     if alive is False and resp["code"] == INCOMPLETE:
                         del asm[k]; continue
